@@ -180,6 +180,26 @@ package querylog
 //@   ensures page-exact: old(params.limit) > 0 && old(params.offset) >= 0 ==> len(entries) == max(min(memCount + fileCount, totalLimitSpec(old(params.offset), old(params.limit))) - old(params.offset), 0)
 //@   ensures cursor-is-last-entry: len(entries) > 0 ==> oldest == entries[len(entries) - 1].Time
 
+// Shutdown (also run on every restart of the DNS server): whatever is still in memory is written to the file whenever
+// the file is enabled - also when logging itself has been switched off in the meantime, because those entries were
+// recorded while it was on.  flushCalls counts the flushes (ghost).
+//@ ghost var flushCalls int
+//@ func (l *queryLog) flushLogBuffer(ctx context.Context) (err error)
+//@   property C07
+//@   requires !held(l.fileFlushLock)
+//@   requires !held(l.bufferLock)
+//@   requires !held(l.fileWriteLock)
+//@   modifies *
+//@   ghost at return: flushCalls = flushCalls + 1
+//@ func (l *queryLog) Shutdown(ctx context.Context) (err error)
+//@   property C07
+//@   requires !held(l.confMu) && !rheld(l.confMu)
+//@   requires !held(l.fileFlushLock)
+//@   requires !held(l.bufferLock)
+//@   requires !held(l.fileWriteLock)
+//@   ensures memory-flushed-when-file-enabled: old(l.conf.FileEnabled) ==> flushCalls == old(flushCalls) + 1
+//@   modifies *
+
 // ---- C11: routes are registered through the authenticating helper with a non-empty method ----
 // (an empty method is reserved for the DNS-over-HTTPS resolver paths and skips authentication in home.httpRegister)
 //@ package-callsite functype:github.com/AdguardTeam/AdGuardHome/internal/aghhttp.RegisterFunc(method, url, handler) requires method != "" || url == "/dns-query" || url == "/dns-query/"
